@@ -257,6 +257,133 @@ fn curs_lookup(r: &mut StdRng, u: &Uni, alpha: &[i64]) -> Value {
     lk(3, (fl, -1), r.gen_bool(0.2), vec![json!({"cov": cov(r, &gs), "recs": recs})])
 }
 
+/// Cursive lookup for the combination programs. `mode` 0: entry anchors at x = 0 (allsorts'
+/// left-to-right approximation is exact), 1: entry anchors at the advance width and exit anchors
+/// at the origin (the right-to-left one is exact), 2: arbitrary. Exit/entry y differ unless `flat`.
+fn comb_curs_lookup(r: &mut StdRng, u: &Uni, glyphs: &[i64], mode: usize, flat: bool, rtl_flag: bool) -> Value {
+    let recs: Vec<Value> = glyphs
+        .iter()
+        .map(|g| {
+            let mut en = anchor(r);
+            let mut ex = anchor(r);
+            match mode {
+                0 => en["x"] = json!(0),
+                1 => {
+                    en["x"] = json!(u.adv[*g as usize]);
+                    ex["x"] = json!(0);
+                }
+                _ => {}
+            }
+            if flat {
+                en["y"] = json!(0);
+                ex["y"] = json!(0);
+            }
+            json!({"en": if r.gen_bool(0.08) { null_anchor() } else { en }, "ex": if r.gen_bool(0.08) { null_anchor() } else { ex }})
+        })
+        .collect();
+    lk(3, (if rtl_flag { 9 } else { 8 }, -1), r.gen_bool(0.2), vec![json!({"cov": cov(r, glyphs), "recs": recs})])
+}
+
+/// Plain horizontal kern table over `alpha`.
+fn plain_kern_table(r: &mut StdRng, alpha: &[i64]) -> Value {
+    let mut pairs: Vec<(i64, i64, i64)> = Vec::new();
+    for a in alpha {
+        for b in alpha {
+            if r.gen_bool(0.4) {
+                pairs.push((*a, *b, r.gen_range(-150..=150)));
+            }
+        }
+    }
+    pairs.sort();
+    json!([{"f": 0, "cov": 1, "pairs": pairs.iter().map(|p| json!([p.0, p.1, p.2])).collect::<Vec<Value>>()}])
+}
+
+/// Strings for the combination programs: joined glyphs, each followed by up to two marks,
+/// sometimes an uncovered glyph (with marks) before / after the chain.
+fn comb_strings(r: &mut StdRng, n: usize, curs: &[i64], marks: &[i64], outside: &[i64]) -> Vec<Value> {
+    (0..n)
+        .map(|_| {
+            let mut gs: Vec<i64> = Vec::new();
+            let decorate = |r: &mut StdRng, gs: &mut Vec<i64>| {
+                if !marks.is_empty() {
+                    for _ in 0..*[0usize, 1, 1, 2].choose(r).unwrap() {
+                        gs.push(*marks.choose(r).unwrap());
+                    }
+                }
+            };
+            if !outside.is_empty() && r.gen_bool(0.25) {
+                gs.push(*outside.choose(r).unwrap());
+                decorate(r, &mut gs);
+            }
+            for _ in 0..r.gen_range(2..=4) {
+                gs.push(*curs.choose(r).unwrap());
+                decorate(r, &mut gs);
+            }
+            if !outside.is_empty() && r.gen_bool(0.4) {
+                gs.push(*outside.choose(r).unwrap());
+                decorate(r, &mut gs);
+            }
+            Value::Array(gs.iter().map(|g| json!({"g": g, "lc": 0, "lig": false})).collect())
+        })
+        .collect()
+}
+
+/// Combination program: one feature whose lookups join glyphs cursively, attach marks (to bases
+/// and to marks), and optionally kern (advance only where a joined glyph may be hit), displace
+/// glyphs no cursive lookup covers, and a plain kern table.
+fn comb_program(r: &mut StdRng, u: &Uni, alpha: &[i64], n_str: usize) -> (Value, Vec<Value>) {
+    let nonmarks: Vec<i64> = alpha.iter().cloned().filter(|g| u.role[*g as usize] != 3).collect();
+    let marks: Vec<i64> = alpha.iter().cloned().filter(|g| u.role[*g as usize] == 3).collect();
+    // joined glyphs: all but (sometimes) one of the non-marks
+    let mut curs: Vec<i64> = nonmarks.clone();
+    curs.shuffle(r);
+    if curs.len() > 2 && r.gen_bool(0.6) {
+        curs.pop();
+    }
+    curs.sort();
+    let outside: Vec<i64> = nonmarks.iter().cloned().filter(|g| !curs.contains(g)).collect();
+    let mode = r.gen_range(0..3usize);
+    let flat = r.gen_bool(0.25);
+    let rtl_flag = r.gen_bool(0.6);
+    let mut ls: Vec<Value> = vec![comb_curs_lookup(r, u, &curs, mode, flat, rtl_flag)];
+    // marks on every non-mark (anchors for most classes)
+    let nc = r.gen_range(1..=2usize);
+    let bases: Vec<Value> = nonmarks
+        .iter()
+        .map(|_| Value::Array((0..nc).map(|_| if r.gen_bool(0.1) { null_anchor() } else { anchor(r) }).collect()))
+        .collect();
+    ls.push(lk(4, (0, -1), r.gen_bool(0.2), vec![json!({"mcov": cov(r, &marks), "bcov": cov(r, &nonmarks), "nc": nc,
+        "marks": mark_records(r, &marks, nc), "bases": bases})]));
+    if r.gen_bool(0.6) {
+        ls.push(markmark_lookup(r, u));
+    }
+    if r.gen_bool(0.5) {
+        // kerning that skips marks, advances only
+        ls.push(pair_lookup(r, u, &nonmarks, false, (8, -1)));
+    }
+    if r.gen_bool(0.5) {
+        // displacement of marks and of the glyphs outside the cursive coverage
+        let mut gs: Vec<i64> = marks.clone();
+        gs.extend(outside.iter());
+        gs.sort();
+        let fl = *[(0i64, -1i64), (0, -1), (2, -1)].choose(r).unwrap();
+        ls.push(single_lookup(r, u, &gs, true, fl));
+    } else if r.gen_bool(0.4) {
+        // advance adjustments of any glyph
+        ls.push(single_lookup(r, u, alpha, false, (0, -1)));
+    }
+    // the cursive lookup anywhere in the lookup list
+    let first = ls.remove(0);
+    let at = r.gen_range(0..=ls.len());
+    ls.insert(at, first);
+    let n = ls.len();
+    let kern = if r.gen_bool(0.3) { plain_kern_table(r, alpha) } else { json!([]) };
+    let tag = *["curs", "mark", "mkmk"].choose(r).unwrap();
+    let prog = program(u, tag, "arab", ls, (0..n).collect(), kern, true);
+    let ins = comb_strings(r, n_str, &curs, &marks, &outside);
+    (prog, ins)
+}
+
 fn seq_of(r: &mut StdRng, alpha: &[i64], max: usize) -> Vec<i64> {
     (0..r.gen_range(0..=max)).map(|_| *alpha.choose(r).unwrap()).collect()
 }
@@ -393,7 +520,7 @@ fn strings(r: &mut StdRng, alpha: &[i64], n: usize, maxlen: usize, u: &Uni, lig_
 /// (kind, program, inputs) triples, deterministic in `seed`.
 pub fn programs(seed: u64, n_prog: usize, n_str: usize) -> Vec<(String, Value, Vec<Value>)> {
     let mut r = StdRng::seed_from_u64(seed ^ 0xC05C05);
-    let kinds = ["single", "pair", "mark", "marklig", "curs", "ctx", "kern", "mixed"];
+    let kinds = ["single", "pair", "mark", "marklig", "curs", "ctx", "kern", "mixed", "comb"];
     let mut out = Vec::new();
     for pi in 0..n_prog {
         let r = &mut r;
@@ -411,6 +538,17 @@ pub fn programs(seed: u64, n_prog: usize, n_str: usize) -> Vec<(String, Value, V
         }
         alpha.sort();
         let none = json!([]);
+        if kind == "comb" {
+            // cursive chains + marks + kerning + displacements in one program; all the bases of the
+            // universe so that some can stay outside the cursive coverage
+            let mut a2 = alpha.clone();
+            a2.extend(u.bases.iter().skip(2).take(1));
+            a2.sort();
+            a2.dedup();
+            let (prog, ins) = comb_program(r, &u, &a2, n_str);
+            out.push((kind.to_string(), prog, ins));
+            continue;
+        }
         let (prog, lig_comps) = match kind {
             "single" => {
                 let n = r.gen_range(1..=3);
